@@ -40,7 +40,6 @@ def outToJson (o : Out) : Json :=
   | .ok .. => Json.mkObj [("out", "ok"), ("text", match o.text with | some t => jstr t | none => Json.null)]
   | .unknown n => Json.mkObj [("out", "unknown"), ("name", jstr n)]
   | .ambiguous n => Json.mkObj [("out", "ambiguous"), ("name", jstr n)]
-  | .internal s => Json.mkObj [("out", "internal"), ("site", Json.str s)]
 
 def opsRefs (op : String) (j : Json) : Option (Except String Json) :=
   match op with
